@@ -850,7 +850,7 @@ type treeSpec struct {
 	classes []string
 }
 
-var vNamePool = []string{"a.txt", "data.bin", "x", "读我.md", "sp ace.txt", "-dash", "ünï.dat", "b.tar.gz", "emoji😀.txt", "UPPER", "dot.", "q'uote", "z_9"}
+var vNamePool = []string{"a.txt", "data.bin", "x", "读我.md", "sp ace.txt", "-dash", "ünï.dat", "b.tar.gz", "emoji😀.txt", "UPPER", "dot.", "q'uote", "z_9", "..data", "...", ".hid", "..2026_09_28"}
 var vSizePool = []int{0, 1, 511, 512, 513, 1023, 1024, 10239, 10240, 10241, 131071, 131072, 131073, 393215, 393217}
 
 func vGenContent(tp *verifsim.Tape, size int) ([]byte, string) {
